@@ -116,3 +116,39 @@ Lemma build_dfa_uses_direction :
   lookup "thompson.reverse"%string build_dfa_config = Some "reverse"%string /\
   lookup "match_kind.then"%string build_dfa_config <> lookup "match_kind.else"%string build_dfa_config.
 Proof. vm_compute. repeat split; discriminate. Qed.
+
+(* ---------------------------------------------------------------- converse direction at the translated tables *)
+Lemma read_env_cwf : cwf_envb read_env = true.
+Proof. vm_compute. reflexivity. Qed.
+
+Lemma envs_equal : write_env = read_env.
+Proof. apply env_eqb_eq. exact envs_agree. Qed.
+
+Lemma strip_prefix_inv : forall p bs r, strip_prefix p bs = Some r -> bs = p ++ r.
+Proof.
+  induction p as [|x p IH]; intros bs r H; cbn [strip_prefix] in H; [injection H as <-; reflexivity|].
+  destruct bs as [|y bs]; [discriminate|]. destruct (x =? y) eqn:E; [|discriminate].
+  apply N.eqb_eq in E; subst. apply IH in H. subst. reflexivity.
+Qed.
+
+(* every file accepted by from_bytes_unchecked is, up to its ignored tail, exactly what to_bytes writes for the
+   scanner it loads: saving a loaded scanner reproduces the file *)
+Lemma scanner_file_canonical : forall fuel file v rest,
+  byte_list file -> from_bytes_model fuel file = Some (v, rest) ->
+  exists body, to_bytes_model v = Some body /\ file = body ++ rest.
+Proof.
+  intros fuel file v rest B H. unfold from_bytes_model in H.
+  destruct (strip_prefix wire_magic_read file) as [b1|] eqn:S1; [|discriminate].
+  destruct (strip_prefix scanner_kind_read b1) as [b2|] eqn:S2; [|discriminate].
+  destruct (get_le 4 b2) as [[ver b3]|] eqn:G; [|discriminate].
+  destruct (ver =? wire_version) eqn:V; [|discriminate]. apply N.eqb_eq in V. subst ver.
+  apply strip_prefix_inv in S1. apply strip_prefix_inv in S2. subst file b1.
+  apply byte_list_app in B as [_ B]. apply byte_list_app in B as [_ B].
+  apply get_le_inv in G as [-> [_ B3]]; [|exact B].
+  destruct (decode_encode read_env read_env_cwf fuel scanner_ref b3 v rest eq_refl B3 H) as [a [Ea ->]].
+  pose proof header_agree as HA. apply andb_true_iff in HA as [HA _]. apply andb_true_iff in HA as [Hm Hk].
+  apply bytes_eqb_eq in Hm. apply bytes_eqb_eq in Hk.
+  exists (wire_magic_write ++ scanner_kind_write ++ le 4 wire_version ++ a).
+  unfold to_bytes_model. rewrite envs_equal, Ea, Hm, Hk. split; [reflexivity|].
+  now rewrite <- !app_assoc.
+Qed.
